@@ -403,7 +403,7 @@ Definition rm_op (p : pval) : M unit :=
   | KReg n =>
       do s <- get;
       if vt_hyb (pv_ty p) then fail "update_hybrid_ref: KeyError" else
-      put (mkst (st_vars s) (filter (fun r => negb (String.eqb (fst r) n)) (st_regs s)) (st_pending s) (st_hcount s) (st_imms s) (st_nonempty s) (st_removed s))
+      put (mkst (st_vars s) (filter (fun r => negb (String.eqb (fst r) n)) (st_regs s)) (st_pending s) (st_hcount s) (st_imms s) (st_nonempty s) (("rm:" +++ n) :: st_removed s))
   | KVar n =>
       do s <- get;
       if vt_hyb (pv_ty p) then fail "update_hybrid_ref: KeyError" else
